@@ -4,6 +4,7 @@ import JunoModel.C07.ModelBlob
 import JunoModel.C07.ModelVal
 import JunoModel.C07.Tables
 import JunoModel.C07.ModelAccess
+import JunoModel.C07.ModelBin
 /-! Line-protocol driver for the C07 model (`lake build c07drv`).
 
 Requests (hex = lower-case hex, `-` = empty byte string):
@@ -19,6 +20,11 @@ Requests (hex = lower-case hex, `-` = empty byte string):
   decv <Name> <strict|lenient> <hex>   decode bytes into a value of the table's type → `ok <value…>` | `err`
   acc <accessor> <strict|lenient> <hex>  a partial-decoder accessor on one stored record → `ok <value…>` | `err`
   utf8 <hex>                is the byte string valid UTF-8                    → `true` | `false`
+  key num <bucket> <n> | key bt <n>     database key of a block number            → `ok <hex>`
+  numidx <n> <i>            BlockNumIndexKey bytes                             → `ok <hex>`
+  declared <at> <hex>       stored bytes of a DeclaredClassDefinition (class item given) → `ok <hex>`
+  casm <declaredAt> <v2 hex> <migratedAt> <v1 hex | n>   ClassCasmHashMetadata.MarshalBinary → `ok <hex>`
+  uncasm <hex>              ClassCasmHashMetadata.UnmarshalBinary              → `ok <declaredAt> <v2> <migratedAt> <v1|n>` | `err`
   lim <maxArray> <maxMap> <maxNest> <hex>   does the limited decoder accept the item → `ok` | `rejected` | `err`
 
 Value syntax (prefix form, space separated):
@@ -194,6 +200,34 @@ def step (s : Unit) (line : String) : Unit × String :=
       | some out => (s, out)
       | none => (s, "bad-op")
     | _, _ => (s, "bad-op")
+  | ["key", "num", b, n] =>
+    match b.toNat?, n.toNat? with
+    | some b, some n => (s, "ok " ++ bytesToHex (keyByNumber b n))
+    | _, _ => (s, "bad-op")
+  | ["key", "bt", n] =>
+    match n.toNat? with
+    | some n => (s, "ok " ++ bytesToHex (keyBlockTransactions n))
+    | none => (s, "bad-op")
+  | ["numidx", n, i] =>
+    match n.toNat?, i.toNat? with
+    | some n, some i => (s, "ok " ++ bytesToHex (encNumIndex n i))
+    | _, _ => (s, "bad-op")
+  | ["declared", a, h] =>
+    match a.toNat?, hexToBytes? h with
+    | some a, some cls => (s, "ok " ++ bytesToHex (encDeclared a cls).encode)
+    | _, _ => (s, "bad-op")
+  | ["casm", d, v2, m, v1] =>
+    match d.toNat?, hexToBytes? v2, m.toNat?, (if v1 == "n" then some none else (hexToBytes? v1).map some) with
+    | some d, some v2, some m, some v1 => (s, "ok " ++ bytesToHex (CasmMeta.marshal ⟨d, v2, m, v1⟩))
+    | _, _, _, _ => (s, "bad-op")
+  | ["uncasm", h] =>
+    match hexToBytes? h with
+    | some bs =>
+      match CasmMeta.unmarshal bs with
+      | some m => (s, s!"ok {m.declaredAt} {bytesToHex m.v2} {m.migratedAt} " ++
+          (match m.v1 with | some h => bytesToHex h | none => "n"))
+      | none => (s, "err")
+    | none => (s, "bad-op")
   | ["lim", a, m, n, h] =>
     match a.toNat?, m.toNat?, n.toNat?, hexToBytes? h with
     | some a, some m, some n, some bs =>
